@@ -7,10 +7,10 @@ open FastQr FastQr.Model
 
 namespace Driver
 
-/-- `pix <hex> e m v k <ops> <fw> <fh> => ok <w> <h> <cells> <uniform|-> <centres> <png> <bg> <fg> <matrix>` -/
-def opPix (args res : List String) : Verdict :=
-  match args, res with
-  | [_, _, _, _, _, opsS, fw, fh], ["ok", w, h, cells, uniform, centres, png, _bg, _fg, mat] =>
+/-- verdict on a pixmap summary, given the history of fit setter calls -/
+def pixVerdict (opsS : String) (fits : List Image.Op) (res : List String) : Verdict :=
+  match res with
+  | ["ok", w, h, cells, uniform, centres, png, _bg, _fg, mat] =>
     let w := w.toNat!
     let h := h.toNat!
     let cells := cells.toNat!
@@ -21,8 +21,14 @@ def opPix (args res : List String) : Verdict :=
       let b := Svg.Builder.run ops
       let n := cells - 2 * b.margin
       let g : Spec.Grid := ⟨n, a⟩
-      let ib : Image.Builder := { fitWidth := optNat fw, fitHeight := optNat fh, svg := b }
-      let expSide := Image.side ib cells
+      -- model: the whole history folded over the builder
+      let ib : Image.Builder := Image.Builder.run (ops.map Image.Op.svgOp ++ fits)
+      let modelSide := Image.side ib cells
+      -- property: the largest square satisfying the request = the LAST width and the LAST height asked for
+      let lastW := fits.foldl (fun (acc : Option Nat) o => match o with | .fitWidth x => some x | _ => acc) none
+      let lastH := fits.foldl (fun (acc : Option Nat) o => match o with | .fitHeight x => some x | _ => acc) none
+      let expSide := match lastW, lastH with
+        | some x, some y => min x y | some x, none => x | none, some y => y | none, none => cells
       let shapes := (Svg.layers b).map (·.1)
       let expected : String := String.ofList ((List.range (cells * cells)).map fun k =>
         let r := k / cells
@@ -36,10 +42,33 @@ def opPix (args res : List String) : Verdict :=
         (if uniform != "-" ∧ shapes == [0] then cmp "square-shape-integer-scale-every-pixel" expected uniform else none),
         (if scaleOk4 ∨ (uniform != "-" ∧ shapes == [0]) then cmp "cell-centres" expected centres else none),
         (if png == "1" then none else some "png-bytes-do-not-decode-to-the-pixmap")]
-      { spec := spec, model := cmp "side" (toString expSide) (toString w) }
-  | _, "trap" :: _ => { spec := some "to_pixmap-panicked", model := some "trap" }
-  | _, _ => {}
+      { spec := spec, model := cmp "side" (toString modelSide) (toString w) }
+  | "trap" :: _ => { spec := some "to_pixmap-panicked", model := some "trap" }
+  | _ => {}
 
+/-- `pix <hex> e m v k <ops> <fw> <fh> => ok <w> <h> <cells> <uniform|-> <centres> <png> <bg> <fg> <matrix>` -/
+def opPix (args res : List String) : Verdict :=
+  match args with
+  | [_, _, _, _, _, opsS, fw, fh] =>
+    pixVerdict opsS ((optNat fw).toList.map Image.Op.fitWidth ++ (optNat fh).toList.map Image.Op.fitHeight) res
+  | _ => {}
+
+def parseFits (s : String) : Option (List Image.Op) :=
+  if s == "-" then some [] else
+  (s.splitOn ";").mapM fun t =>
+    match t.toList with
+    | 'w' :: r => (String.ofList r).toNat?.map Image.Op.fitWidth
+    | 'h' :: r => (String.ofList r).toNat?.map Image.Op.fitHeight
+    | _ => none
+
+/-- `pixh <hex> e m v k <ops> <w116;h232;…|-> => …` -/
+def opPixH (args res : List String) : Verdict :=
+  match args with
+  | [_, _, _, _, _, opsS, hist] =>
+    (match parseFits hist with
+     | some fits => pixVerdict opsS fits res
+     | none => { spec := some "bad-fits" })
+  | _ => {}
 
 /-- twice the pixel coordinate of a module coordinate at 8 px per module (floor) -/
 def twoPix (x : Dy) : Int := (x.num * 16) / ((2 : Int) ^ x.exp)
